@@ -115,30 +115,65 @@ pub fn run(ctx: &Ctx) -> Report {
         }
         for h in hist {
             let ops = flatten(&syms, &h);
-            rep.eval(spec.name);
-            let mut rig = Rig::simple(spec);
-            let mut opcodes_seen = std::collections::BTreeSet::new();
-            for o in &ops {
-                let c0 = rig.board.borrow().chip().cmds.len();
-                let out = rig.apply(o);
-                if !out.is_ok() {
-                    rep.inconclusive("operation did not return Ok (reported by the property that owns it)");
-                    break;
+            // on an idle panel, and on a panel that is busy for three polls after every busy-raising command
+            // (what a driver sends may depend on what it reads from the BUSY line)
+            let mut idle_sigs: Vec<String> = Vec::new();
+            for busy in [false, true] {
+                rep.eval(spec.name);
+                let mut rig = if !busy {
+                    Rig::simple(spec)
+                } else {
+                    match Rig::new(
+                        spec,
+                        |b| {
+                            b.busy_mode = crate::hal::BusyMode::Physical;
+                            b.chips[0].busy.default_d = 3;
+                        },
+                        None,
+                        false,
+                    ) {
+                        Ok(r) => r,
+                        Err(_) => {
+                            rep.count("busy_panel_constructor_failed", 1);
+                            continue;
+                        }
+                    }
+                };
+                let mut opcodes_seen = std::collections::BTreeSet::new();
+                for o in &ops {
+                    let c0 = rig.board.borrow().chip().cmds.len();
+                    let out = rig.apply(o);
+                    if !out.is_ok() {
+                        if busy {
+                            rep.count("busy_panel_operation_not_ok", 1);
+                        } else {
+                            rep.inconclusive("operation did not return Ok (reported by the property that owns it)");
+                        }
+                        break;
+                    }
+                    let b = rig.board.borrow();
+                    let cmds = &b.chip().cmds[c0..];
+                    rep.count("commands_decoded", cmds.len() as u64);
+                    for c in cmds {
+                        opcodes_seen.insert(c.op);
+                        rep.state(((spec.name.len() as u64) << 32) ^ hash_str(spec.name) ^ ((c.op as u64) << 8 | c.nparams.min(255) as u64));
+                    }
+                    for (class, mut tags, detail) in check_cmds(spec, cmds, Some(o.k)) {
+                        let sig = format!("{}|{}|{}", o.k.name(), class, tags.join(","));
+                        if !busy {
+                            idle_sigs.push(sig);
+                        } else if idle_sigs.contains(&sig) {
+                            continue;
+                        } else {
+                            tags.push("panel-busy".into());
+                        }
+                        rep.fail(Failure { panel: spec.name.into(), entry: o.k.name().into(), class, tags, detail: format!("{} (history: {}{})", detail, ops_short(&ops), if busy { ", panel busy for three polls after each busy-raising command" } else { "" }), case: case_json(spec, &ctx.variant, &ops).set("busy_polls", if busy { 3 } else { 0 }) });
+                    }
                 }
-                let b = rig.board.borrow();
-                let cmds = &b.chip().cmds[c0..];
-                rep.count("commands_decoded", cmds.len() as u64);
-                for c in cmds {
-                    opcodes_seen.insert(c.op);
-                    rep.state(((spec.name.len() as u64) << 32) ^ hash_str(spec.name) ^ ((c.op as u64) << 8 | c.nparams.min(255) as u64));
+                rep.nontrivial(hash_str(&format!("{}|{}|{}", spec.name, ops_short(&ops), busy)));
+                if !busy && rep.samples.len() < 8 && h.len() == 2 {
+                    rep.sample(case_json(spec, &ctx.variant, &ops).set("opcodes", opcodes_seen.iter().map(|o| format!("{:02X}", o)).collect::<Vec<_>>()));
                 }
-                for (class, tags, detail) in check_cmds(spec, cmds, Some(o.k)) {
-                    rep.fail(Failure { panel: spec.name.into(), entry: o.k.name().into(), class, tags, detail: format!("{} (history: {})", detail, ops_short(&ops)), case: case_json(spec, &ctx.variant, &ops) });
-                }
-            }
-            rep.nontrivial(hash_str(&format!("{}|{}", spec.name, ops_short(&ops))));
-            if rep.samples.len() < 8 && h.len() == 2 {
-                rep.sample(case_json(spec, &ctx.variant, &ops).set("opcodes", opcodes_seen.iter().map(|o| format!("{:02X}", o)).collect::<Vec<_>>()));
             }
         }
     }
